@@ -302,8 +302,23 @@ def wiring_of(repo, fn, rel, kernel_override=None):
             if isinstance(n, ast.Call) and call_name(n.func) == "map_overlap":
                 d = {k.arg: k.value for k in n.keywords}
                 depth = d.get("depth")
+                # respellings with the same meaning: a local name bound to the depth, a dict by axis,
+                # a scalar (dask broadcasts it to every axis)
+                local = {t.id: st.value for st in ast.walk(df) if isinstance(st, ast.Assign)
+                         and len(st.targets) == 1 and isinstance((t := st.targets[0]), ast.Name)}
+                for _ in range(4):
+                    if isinstance(depth, ast.Name) and depth.id in local:
+                        depth = local[depth.id]
+                if isinstance(depth, ast.Dict) and sorted(getattr(k, "value", None) for k in depth.keys) == [0, 1]:
+                    by_axis = {k.value: v for k, v in zip(depth.keys, depth.values)}
+                    depth = ast.Tuple(elts=[by_axis[0], by_axis[1]], ctx=ast.Load())
+                if isinstance(depth, ast.Constant) and isinstance(depth.value, int) and not isinstance(depth.value, bool):
+                    depth = ast.Tuple(elts=[depth, depth], ctx=ast.Load())
+                if isinstance(depth, ast.Tuple):
+                    depth = ast.Tuple(elts=[local.get(e.id, e) if isinstance(e, ast.Name) else e for e in depth.elts],
+                                      ctx=ast.Load())
                 dv = [e.value for e in depth.elts] if isinstance(depth, ast.Tuple) and all(
-                    isinstance(e, ast.Constant) for e in depth.elts) else None
+                    isinstance(e, ast.Constant) and isinstance(e.value, int) for e in depth.elts) else None
                 dask = dict(ok=True, depth=dv, boundary_nan=is_nan(d.get("boundary")))
     return dict(kernel=kern, resX=res_names[0] if res_names else "", resY=res_names[1] if res_names else "",
                 pre=pre_l, args=args, aggData=agg_data, dask=dask)
